@@ -100,7 +100,7 @@ func genForm(r *rng, depth int) string {
 	case 9:
 		return "^" + genForm(r, depth-1) + " " + genForm(r, depth-1)
 	case 10:
-		return "«" + r.pick([]string{"error", "go-error", "atom", "nope", "1", "", "lfn", "num", "nil"}) + " " + join() + "»"
+		return "«" + r.pick([]string{"error", "go-error", "atom", "nope", "1", "", "lfn", "num", "nil", "spin", "tick", "tick -1", "mspin"}) + " " + join() + "»"
 	default:
 		return "{" + join() + "}"
 	}
@@ -316,7 +316,9 @@ func (e *readEngine) theEnv() EnvType {
 		e.env = env.NewEnv()
 		core.Load(e.env)
 		// names spelled like constructors but bound to something that is not a Go function
-		for _, src := range []string{"(def new-lfn (fn [a] a))", "(def new-num 5)", "(def new-nil nil)"} {
+		// (… among them lisp functions and a macro that never return: reading a text runs no program)
+		for _, src := range []string{"(def new-lfn (fn [a] a))", "(def new-num 5)", "(def new-nil nil)", "(def new-spin (fn [& xs] (new-spin)))",
+			"(def new-tick (fn [n] (if (= n 0) :done (new-tick (- n 1)))))", "(defmacro new-mspin (fn [& xs] (list 'new-mspin)))"} {
 			if ast, err := lisp.READ(src, nil, e.env); err == nil {
 				lisp.EVAL(context.Background(), ast, e.env)
 			}
@@ -454,8 +456,28 @@ func (e *rwpEngine) generate(r *rng, n int, tier string, emit func(string)) {
 		emit(hex.EncodeToString([]byte(s)))
 		emit(hex.EncodeToString([]byte(";; $x " + s + "\n\n$x")))
 	})
+	// preambles COMPOSED line by line: every spelling of a comment line that starts like a preamble line — bare `;;`, `;;`
+	// followed by blanks only (0 … 6, tabs, CR), indented values, lines that look like the continuation of the line
+	// before, a third semicolon — in every position after a placeholder line
+	lines := []string{";;", ";; ", ";;  ", ";;   ", ";;    ", ";;      ", ";;\t", ";;   \t ", ";;   \r", ";; $x", ";; $x 1", ";; $y \"s\"", ";;   $x 1", ";;   more",
+		";;   \"s\"", ";;   }", ";;; $x 1", ";", ";; $x 1 ;; $y 2", "  ;;   ", " ;; $y [1", ";;   2]", ";; $x ¬{\"a\":", ";;   1}¬", ";; $x {:a", ";;$y 2", ";; $ y"}
+	for _, a := range lines {
+		for _, b := range lines {
+			emit(hex.EncodeToString([]byte(a + "\n" + b + "\n\n[$x $y]")))
+		}
+		emit(hex.EncodeToString([]byte(";; $x 1\n" + a + "\n\n(+ $x 1)")))
+		emit(hex.EncodeToString([]byte(";; $x 1\n" + a)))
+		emit(hex.EncodeToString([]byte(a)))
+	}
 	for i := 0; i < n; i++ {
 		s := r.pick(pre) + genTextCase(r)
+		if r.chance(1, 3) {
+			s = ""
+			for k := 1 + r.intn(4); k > 0; k-- {
+				s += r.pick(lines) + r.pick([]string{"\n", "\n", "\r\n", "\n\n"})
+			}
+			s += genTextCase(r)
+		}
 		if r.chance(1, 4) {
 			s = mutateText(r, s)
 		}
